@@ -130,6 +130,13 @@ class Node:
             names = ("game", "table", "continue_running", "remaining_depth", "real_depth", "alpha", "beta", "killer_moves", "history")
         else:
             names = ("game", "alpha", "beta", "real_depth")
+        # the callee's own parameter names (an extra parameter - a statistics sink, say - does not shift the window arguments)
+        try:
+            pn = [p_["pat"].get("name") for p_ in self.F.fn(callee)["hir"]["params"]]
+        except Exception:
+            pn = []
+        if len(pn) == len(args) and set(names) <= set(pn):
+            names = tuple(pn)
         a = dict(zip(names, args)) if len(args) == len(names) else {}
         pend = self.pending.get((callee, hir.line(n)))
         return {"node": n, "callee": callee, "negs": negs, "try": tried, "let": let, "user": user.get("k") if user else None,
@@ -346,6 +353,18 @@ def b3(ctx, F, nodes):
                     name = n["name"]
                     if name in PERMUTERS or name in READERS:
                         continue
+                    if p == Q and name == "retain" and n.get("args"):
+                        # the quiescence search looks at tactical moves only: keeping exactly those is the `continue` of the loop done
+                        # ahead of it (what counts as tactical is B5's concern)
+                        clo = hir.strip(n["args"][0])
+                        if clo.get("k") == "Closure" and clo.get("params"):
+                            pn_ = hir.pat_names(clo["params"][0])
+                            cb = nd.sym(clo["body"])
+                            while isinstance(cb, tuple) and cb[:1] in (("deref",), ("ref",)) and len(cb) == 2:
+                                cb = cb[1]
+                            if pn_ and cb[:2] == ("call", "chess::move_struct::Move::is_tactical_move") and len(cb[2]) == 1 and \
+                                    hir.fmt(cb[2][0], 40).lstrip("*&") == pn_[0]:
+                                continue
                     if p == E and name in ("swap_remove", "remove"):
                         # the root's repetition filter: one removal, control-dependent on a comparison with the game's move history
                         from .common import enclosing_conditions, dependence_nodes
@@ -723,6 +742,11 @@ def b6(ctx, F, nodes):
     before, nv = len(ctx.instances), len(ctx.violations)
     p10.n4(ctx, F)
     relabel(ctx, before, nv, "C09.B6")
+    # ... and what a node without moves is worth (stalemate 0 / mate by distance, decided on the checked list where the plain search
+    # decides it): a node that misjudges "no legal move" returns a value no plain search would (C10.N1)
+    before, nv = len(ctx.instances), len(ctx.violations)
+    p10.n1(ctx, F)
+    relabel(ctx, before, nv, "C09.B7")
     # the root returns its best score
     nd = nodes[E]
     tail = hir.strip(nd.body).get("expr")
